@@ -71,6 +71,7 @@ class Harness:
         self.tier = "quick"         # quick | thorough
         self.should_panic = False
         self.note = ""
+        self.mustfail = None        # marker fn name: CBMC MUST report a failure located inside it
 
     @property
     def fq(self):
@@ -98,6 +99,8 @@ def parse_annot(h, text):
             h.timeout = int(part[8:])
         elif part in ("quick", "thorough"):
             h.tier = part
+        elif part.startswith("mustfail="):
+            h.mustfail = part[9:]
         elif part.startswith("note="):
             h.note = part[5:]
         else:
@@ -318,6 +321,17 @@ def main(a):
         vac = [c for c in unreach if classify_failure(c) == "named"] + [c for c in covers if c["status"] == "UNSATISFIABLE"]
         if vac and r["status"] == "SUCCESSFUL":
             undecided.append("%s: vacuous obligation(s): %s" % (h.name, "; ".join(c["description"] for c in vac[:4])))
+        if h.mustfail:
+            exp = [c for c in failed if h.mustfail in c["location"]]
+            other = [c for c in failed if h.mustfail not in c["location"]]
+            if r["status"] in ("SUCCESSFUL", "FAILED") and not exp:
+                violations.append((h, r, {"description": "%s::post::releases_memory (expected CBMC failure inside %s did not occur)" % (h.fns[0] if h.fns else h.name, h.mustfail), "location": "", "id": ""}, "named"))
+                continue
+            if r["status"] == "FAILED" and exp and not other:
+                n_ok += len(exp)
+                rec["status"] = "SUCCESSFUL(expected-failure)"
+                continue
+            failed = other
         if r["status"] == "SUCCESSFUL":
             continue
         if r["status"] in ("TIMEOUT", "ERROR", "MISSING", "UNKNOWN"):
